@@ -63,7 +63,9 @@ RULE = ("histories of 8-60 pick/done/advance steps over n in {0,1,2,3,4,5,8} rea
         "incl. a sweep family that hands every position to choose; directed families: score exactly at the "
         "500 threshold with >= 3 conns, 2-conn force-pick boundary (1 s +- 1 ns), 500+ consecutive failing "
         "completions 1-3 ns apart (slowest possible decay), float-rounding regressions (corpus); non-trivial = "
-        ">= 2 successful picks and >= 1 completion; distinct = distinct canonical case JSON; plus client-wiring cases: "
+        ">= 2 successful picks and >= 1 completion; distinct = distinct canonical case JSON; multi-picker cases: 2-4 Builds with equal / smaller / "
+        "overlapping / disjoint / empty ready sets on the registered picker builder, picks, completions and advances "
+        "interleaved over all live pickers, every live picker dumped after every step; plus client-wiring cases: "
         "NewClient with every single exported ClientOption, every option before/after WithTransportCredentials and random "
         "sequences (0-8 options, repeats, full permutations) against 2-3 in-process grpc backends behind direct:///, "
         "300 calls each")
@@ -411,6 +413,59 @@ def _answer_error_case(rng):
     return case
 
 
+def _multi_case(rng):
+    """2-4 Builds with different (overlapping, equal, smaller, empty) ready sets on ONE picker builder; picks,
+    completions and advances interleaved over all live pickers."""
+    pool = rng.randint(4, 8)
+    nb = rng.randint(2, 4)
+    ops = []
+    sizes = []          # ready-set size per picker
+    npicks = []         # successful picks per picker
+    outstanding = []    # per picker
+
+    def build():
+        r = rng.random()
+        if sizes and r < 0.3:
+            prev = [o for o in ops if o["op"] == "build"][rng.randrange(len(sizes))]["ready"]
+            ready = list(prev) if rng.random() < 0.5 else rng.sample(prev, rng.randint(0, len(prev)))   # equal / smaller
+        else:
+            ready = rng.sample(range(pool), rng.choice([1, 2, 2, 3, 3, 4, min(5, pool)]))
+        rng.shuffle(ready)
+        ops.append({"op": "build", "ready": ready})
+        sizes.append(len(ready))
+        npicks.append(0)
+        outstanding.append([])
+
+    build()
+    built = 1
+    for _ in range(rng.randint(12, 45)):
+        r = rng.random()
+        if built < nb and r < 0.12:
+            build()
+            built += 1
+        elif r < 0.55:
+            p = rng.randrange(len(sizes))
+            ops.append({"op": "pick", "p": p, "draws": _draws(rng, sizes[p])})
+            if sizes[p] > 0:
+                outstanding[p].append(npicks[p])
+                npicks[p] += 1
+        elif r < 0.8:
+            cand = [p for p in range(len(sizes)) if outstanding[p]]
+            if cand:
+                p = rng.choice(cand)
+                k = outstanding[p].pop(rng.randrange(len(outstanding[p])))
+                ops.append({"op": "done", "p": p, "k": k,
+                            "code": rng.choice(FAIL_CODES) if rng.random() < 0.35 else rng.choice(OK_CODES)})
+        else:
+            ops.append({"op": "adv", "dt": _dt(rng) if rng.random() < 0.5 else rng.choice([MS, 30 * MS, S // 2, S + 1])})
+    while built < nb:
+        build()
+        built += 1
+        for p in range(len(sizes)):                       # every live picker is used again after the last Build
+            ops.append({"op": "pick", "p": p, "draws": _draws(rng, sizes[p])})
+    return {"multi": True, "start": START, "ops": ops}
+
+
 def _flag_pass(rng, case):
     """every flag combination x acceptable/unacceptable codes on the completions that do not fix their flags"""
     for op in case.get("ops", []):
@@ -433,6 +488,8 @@ def _generate(rng, tier, n):
             cases.append(_sweep_case(rng))
         elif r < 0.67:
             cases.append(_answer_error_case(rng))
+        elif r < 0.75:
+            cases.append(_multi_case(rng))
         elif r < 0.77:
             cases.append(_threshold_case(rng))
         elif r < 0.9:
@@ -458,6 +515,7 @@ def search(rng, problems):
         out.append(_round_case(rng))
         out.append(_sweep_case(rng))
         out.append(_answer_error_case(rng))
+        out.append(_multi_case(rng))
     out.append(_slow_decay_case(rng))
     for c in out:
         _flag_pass(rng, c)
@@ -498,9 +556,45 @@ def _cs(x):
     return cstr("".join(ch if 32 <= ord(ch) < 127 else "?" for ch in x))
 
 
+def _row7(r):
+    return clist([cZ(r[0]), cZ(_signed(r[1])), cZ(r[2]), cZ(_signed(r[3])), cZ(_signed(r[4])), cZ(_signed(r[5])), cZ(r[6])])
+
+
+def _encode_multi(case, obs):
+    steps = []
+    prev = []
+    for op, st in zip(case["ops"], obs["steps"]):
+        cur = [row for pk in (st.get("pickers") or []) for row in pk]
+        k = op["op"]
+        if k == "build":
+            order = [row[6] for row in (st["pickers"][-1] if st.get("pickers") else [])]
+            m = "MBuild %s %s" % (clist([cnat(i) for i in op["ready"]]), clist([cnat(i) for i in order]))
+            delta = [cpair(cnat(i), _row7(r)) for i, r in enumerate(cur) if i >= len(prev) or r != prev[i]]
+        else:
+            if k == "pick":
+                m = "MPick %s %s" % (cnat(op["p"]), clist([cZ(d) for d in op.get("draws", [])]))
+            elif k == "done":
+                code = 2 if op["code"] == -2 else op["code"]
+                m = "MDone %s %s %s %s" % (cnat(op["p"]), cnat(op["k"]), cZ(code), cZ(op.get("flags", 0)))
+            else:
+                m = "MAdv %s" % cZ(op["dt"])
+            if len(cur) == len(prev):
+                delta = [cpair(cnat(i), _row7(r)) for i, r in enumerate(cur) if r != prev[i]]
+            else:       # the number of tracked connections changed without a Build: ship everything, checkers reject
+                delta = [cpair(cnat(i), _row7(r)) for i, r in enumerate(cur)]
+        prev = cur
+        o = "(mkobs %s %s %s %s %s %s %s %s %s %s %s)" % (
+            cZ(st["idx"]), cZ(st["id"]), cZ(_ERR.get(st["err"], 2)), cZ(st["used"]), cZ(st["over"]), cZ(st["conn"]),
+            cZ(st["td"]), cZ(st["wbits"]), cZ(st["now"]), clist(delta), cZ(st["stamp"]))
+        steps.append("(%s, %s)" % (m, o))
+    return "CM (mkmcase %s %s)" % (cZ(case["start"]), clist(steps))
+
+
 def encode(case, obs):
     if case.get("kind") == "client":
         return _encode_client(case, obs)
+    if case.get("multi"):
+        return _encode_multi(case, obs)
     steps = []
     prev = [[0, 0, 1000, 0, 0, 0] for _ in range(case["n"])]
     for op, st in zip(case["ops"], obs["steps"]):
@@ -535,6 +629,8 @@ def encode(case, obs):
 
 
 def nontrivial(case, obs):
+    if case.get("multi"):
+        return sum(1 for o in case["ops"] if o["op"] == "build") >= 2 and sum(1 for st in obs["steps"] if st["idx"] >= 0) >= 2
     if case.get("kind") == "client":
         return len(case["opts"]) >= 1 and case["backends"] >= 2
     picks = sum(1 for st in obs["steps"] if st["idx"] >= 0)
@@ -547,6 +643,19 @@ def _w(bits):
 
 
 def bucket(case, obs):
+    if case.get("multi"):
+        builds = [o["ready"] for o in case["ops"] if o["op"] == "build"]
+        out = ["multi:builds=%d" % len(builds)]
+        for a in range(len(builds)):
+            for b in range(a + 1, len(builds)):
+                sa, sb = set(builds[a]), set(builds[b])
+                out.append("multi:" + ("equal" if sa == sb else "subset" if sb < sa else "overlap" if sa & sb else "disjoint"))
+        if any(not b for b in builds):
+            out.append("multi:empty-ready-set")
+        last_build = max(i for i, o in enumerate(case["ops"]) if o["op"] == "build")
+        if any(o["op"] == "pick" and o["p"] < len(builds) - 1 for o in case["ops"][last_build:]):
+            out.append("multi:old-picker-used-after-later-build")
+        return sorted(set(out))
     if case.get("kind") == "client":
         out = ["client:backends=%d" % case["backends"], "client:opts=%d" % len(case["opts"])]
         out += ["client:opt:" + o["o"] for o in case["opts"]]
@@ -592,6 +701,8 @@ def explain(case, obs):
             "whatever BytesSent/BytesReceived/Trailer/ServerLoad the DoneInfo carried (c14_error_answer_lowers_score, "
             "c14_all_fail_unhealthy_within_500), or (>= 3 conns) a "
             "connection outside the first all-healthy drawn pair was chosen (c14_unhealthy_avoided), or (2 conns) the "
-            "connection not picked for more than 1 s was not picked (c14_force_pick); client cases: the ClientConn built by "
+            "connection not picked for more than 1 s was not picked (c14_force_pick); multi-picker cases: a Build or an "
+            "operation on one picker changed the connections of another live picker, or a picker returned a SubConn that "
+            "is not in ITS ready set (c14_pickers_independent); client cases: the ClientConn built by "
             "NewClient does not run the p2c_ewma balancer / lost its default service config, or a ready backend "
             "received no call (c14_client_keeps_balancer)")
